@@ -15,7 +15,10 @@ func init() {
 	register(&Property{ID: "C10", Run: runC10, Mutants: []Mutant{
 		{Name: "shipped copy: spilling a fixed list leaves its first-node link in place", File: s, Old: "\t\tlocal.get $freep\n\t\ti32.const 0\n\t\ti32.const 0\n\t\tcall $heap_block.init\n\t)", New: "\t\tlocal.get $freep\n\t\ti32.const 0\n\t\tcall $heap_block.set_size\n\t)", Expect: "free-all-visits-every-node"},
 		{Name: "tested copy: rounding mask one hex digit short", File: t, Old: "\t\ti32.const 8\n\t\ti32.div_s\n\t\ti32.const 8\n\t\ti32.mul\n\t)", New: "\t\ti32.const 0xffffff8\n\t\ti32.and\n\t)", Expect: "class-ladder"},
-		{Name: "shipped copy: grow computed from the payload size", File: s, Old: "\t\t\t;; $pages = ($block_size+WASM_PAGE_SIZE-1) / WASM_PAGE_SIZE)\n\t\t\tlocal.get $block_size", New: "\t\t\t;; $pages = ($block_size+WASM_PAGE_SIZE-1) / WASM_PAGE_SIZE)\n\t\t\tlocal.get $size", Expect: "grow-covers-block"},
+		{Name: "shipped copy: grow computed from the payload size", File: s, Old: "\t\t\t;; $pages = ($block_size-(heap_top-heap_ptr)+WASM_PAGE_SIZE-1) / WASM_PAGE_SIZE)\n\t\t\tlocal.get $block_size", New: "\t\t\t;; $pages = ($block_size-(heap_top-heap_ptr)+WASM_PAGE_SIZE-1) / WASM_PAGE_SIZE)\n\t\t\tlocal.get $size", Expect: "grow-covers-block"},
+		{Name: "shipped copy: the grow decision is a signed comparison", File: s, Old: "\t\ti32.sub\n\t\ti32.gt_u\n\t\tif\n", New: "\t\ti32.sub\n\t\ti32.gt_s\n\t\tif\n", Expect: "grow-decision-exact"},
+		{Name: "tested copy: an exact fit takes the grow branch", File: t, Old: "\t\ti32.sub\n\t\ti32.gt_u\n\t\tif\n", New: "\t\ti32.sub\n\t\ti32.ge_u\n\t\tif\n", Expect: "grow-decision-exact"},
+		{Name: "tested copy: memory grows by the whole block", File: t, Old: "\t\t\tlocal.get $block_size\n\t\t\tglobal.get $__heap_top\n\t\t\tglobal.get $__heap_ptr\n\t\t\ti32.sub\n\t\t\ti32.sub\n", New: "\t\t\tlocal.get $block_size\n", Expect: "grow-decision-exact"},
 		{Name: "tested copy: heap_top advanced by pages*4096", File: t, Old: "\t\t\t\tlocal.get $pages\n\t\t\t\ti32.const 65536\n\t\t\t\ti32.mul", New: "\t\t\t\tlocal.get $pages\n\t\t\t\ti32.const 4096\n\t\t\t\ti32.mul", Expect: "grow-covers-block"},
 		{Name: "shipped copy: exact-fit path leaves the rover on the unlinked block", File: s, Old: "\t\t\t\tcall $heap_block.set_next\n\n\t\t\t\t;; $__heap_l128_freep = $prevp\n\t\t\t\tlocal.get $prevp\n\t\t\t\tglobal.set $__heap_l128_freep\n\n\t\t\t\t;; $p.size 不变", New: "\t\t\t\tcall $heap_block.set_next\n\n\t\t\t\t;; $p.size 不变", Expect: "rover-follows-unlink"},
 		{Name: "tested copy: split keeps 8 bytes too many in the remainder", File: t, Old: "\t\t\t\tlocal.get $nbytes\n\t\t\t\ti32.sub\n\t\t\t\ti32.const 8\n\t\t\t\ti32.sub\n\t\t\t\tcall $heap_block.set_size", New: "\t\t\t\tlocal.get $nbytes\n\t\t\t\ti32.sub\n\t\t\t\tcall $heap_block.set_size", Expect: "split-conserves"},
